@@ -82,6 +82,15 @@ pub fn gen_opre(c: &OCfg) -> OPre {
 }
 
 pub fn build(c: &OCfg, o: &OPre) -> FuturesOrderedBounded<Fut> {
+    build_g(c, o, Fut::new)
+}
+
+/// as `build` for any scripted future type whose output is a `u8`-like token
+pub fn build_g<F>(c: &OCfg, o: &OPre, mk: impl Fn(u8) -> F) -> FuturesOrderedBounded<F>
+where
+    F: core::future::Future,
+    F::Output: From8,
+{
     let gh = g();
     let p = &o.p;
     let mut i = 0;
@@ -98,7 +107,7 @@ pub fn build(c: &OCfg, o: &OPre) -> FuturesOrderedBounded<Fut> {
         c.cap,
         |i| {
             if p.occ[i] {
-                Ok((Fut::new(i as u8), o.out.wrapping_add(o.off[i])))
+                Ok((mk(i as u8), o.out.wrapping_add(o.off[i])))
             } else {
                 Err(p.nf[i])
             }
@@ -117,7 +126,7 @@ pub fn build(c: &OCfg, o: &OPre) -> FuturesOrderedBounded<Fut> {
     let mut k = 0;
     while k < c.max_parked {
         if k < o.n_parked {
-            f.verif_park(o.out.wrapping_add(o.poff[k]), PARK + o.poff[k] as u8);
+            f.verif_park(o.out.wrapping_add(o.poff[k]), <F::Output as From8>::from8(PARK + o.poff[k] as u8));
         }
         k += 1;
     }
@@ -125,12 +134,27 @@ pub fn build(c: &OCfg, o: &OPre) -> FuturesOrderedBounded<Fut> {
     while i < c.cap {
         if p.occ[i] && !gh.is_fresh(0, i) {
             if let Some((ch, _)) = v::fob_peek(&f, i) {
-                gh.addr[i] = ch as *const Fut as usize;
+                gh.addr[i] = ch as *const F as usize;
             }
         }
         i += 1;
     }
     f
+}
+
+/// output types a parked token can be made of
+pub trait From8 {
+    fn from8(x: u8) -> Self;
+}
+impl From8 for u8 {
+    fn from8(x: u8) -> u8 {
+        x
+    }
+}
+impl From8 for Result<u8, u8> {
+    fn from8(x: u8) -> Self {
+        Ok(x)
+    }
 }
 
 /// offset (distance from the front) of the element stored with position `pos`
